@@ -80,6 +80,63 @@ fn run_c10_transport(_prop: &str, tier: Tier, run_seed: u64, ov: &Value) -> RunO
                 log.push(format!("{si} {} skipped clean={}", st.sql, clean.tag()));
                 continue;
             }
+            // ---- a disk fault under the INITIATOR's own shard. That shard never crosses the
+            // transport, so no network fault can reach it: the page headers of the initiator's
+            // copy of the sharded table are overwritten (footers intact, so planning, split
+            // enumeration and the digest still succeed). If the initiator's own fragment then
+            // really fails, the query must fail.
+            if let Ok(plan) = plan_distributed(base, &st.sql) {
+                let mut lr = rng.fork(0x10ca1 + si as u64);
+                let local_files: Vec<std::path::PathBuf> = sc.world.nodes[initiator].files.iter().filter(|(name, _)| *name == plan.table).flat_map(|(_, f)| f.iter().cloned()).collect();
+                if lr.chance(1, 5) && !local_files.is_empty() {
+                    let backups: Vec<(std::path::PathBuf, Vec<u8>)> = local_files.iter().map(|p| (p.clone(), std::fs::read(p).unwrap_or_default())).collect();
+                    for (p, bytes) in &backups {
+                        let mut damaged = bytes.clone();
+                        if let Ok(reader) = parquet::file::reader::SerializedFileReader::new(bytes::Bytes::from(bytes.clone())) {
+                            use parquet::file::reader::FileReader;
+                            for rg in reader.metadata().row_groups() {
+                                for c in rg.columns() {
+                                    let start = c.dictionary_page_offset().unwrap_or(c.data_page_offset()).max(0) as usize;
+                                    for b in damaged.iter_mut().skip(start).take(32) {
+                                        *b = 0xff;
+                                    }
+                                }
+                            }
+                        }
+                        let _ = std::fs::write(p, &damaged);
+                    }
+                    out.bump("fault.local-disk-corrupt.armed");
+                    // does the initiator's own fragment fail now? (only then is an error owed)
+                    let local_idx = parts.iter().position(|p| p.is_self);
+                    let digest = splits_of(base, &plan.table, count).map(|s| s.digest());
+                    let mut local_failed = None;
+                    if let (Some(idx), Ok(d)) = (local_idx, digest) {
+                        let req = FragmentRequest { sql: plan.partial_sql.clone(), table: plan.table.clone(), shard_index: idx, shard_count: count, splits_digest: d };
+                        if let Err(e) = super::guarded_result(execute_fragment(base, &req)).await {
+                            local_failed = Some(e);
+                        }
+                    }
+                    if let Some(why) = local_failed {
+                        out.bump("fault.local-disk-corrupt.fired");
+                        transport.reset();
+                        let got = super::guarded(execute_any_distributed(base, &st.sql, &parts, &transport)).await;
+                        out.case_hashes.push(fnv(format!("{shape}|local-disk|{}", st.family).as_bytes()) ^ fnv(st.sql.as_bytes()));
+                        log.push(format!("{si} local-disk-corrupt init={initiator} got={}", got.tag()));
+                        if let Outcome::Rows(r) = &got {
+                            let mut feats = stmt_features(st, &shape, &got);
+                            feats.push("fault:local-disk-corrupt".to_string());
+                            viol.push(violation("failed-fragment-fails-query", "ok-despite-failed-local-shard", feats,
+                                format!("{} [{shape}]: the initiator's own fragment fails ({}) but the query returned Ok with {} rows", st.sql, why.chars().take(120).collect::<String>(), r.len()),
+                                json!({"stmt_index": si, "sql": st.sql, "nodes": count, "initiator": initiator, "shape": shape})));
+                        } else {
+                            out.bump("probe.local_shard_failure_failed_the_query");
+                        }
+                    }
+                    for (p, bytes) in &backups {
+                        let _ = std::fs::write(p, bytes);
+                    }
+                }
+            }
             // choose a fault plan: one to three faults over the remote sends
             let nf = 1 + er.usize(3.min(clean_sends.len()));
             let mut plan: BTreeMap<(String, usize), Planned> = BTreeMap::new();
